@@ -22,8 +22,17 @@ def name_n(n):
 def case_term(row):
     scn = row["scn"]
     flags = gpair(gbool(scn["recovery"]), gbool(scn["dir"] == "s2c"), gbool(CODE_STRIPS))
-    names = glist(gpair(gN(i), gbool(row["trailing"][i]), gbool(True)) for i in scn["names"])
-    em = glist(gpair(gpair(conn_n(e["c"]), name_n(e["n"]), gN(int(e["d"]))), gbool(e["ok"])) for e in row["emitted"])
+    nrows = [gpair(gN(i), gbool(row["trailing"][i]), gbool(True)) for i in scn["names"]]
+    if row.get("twice", -1) in scn["names"]:
+        t = row["twice"]
+        nrows.append(gpair(gN(100 + t), gbool(row["trailing"][t]), gbool(True)))
+    names = glist(nrows)
+    ems = []
+    for e in row["emitted"]:
+        ems.append(gpair(gpair(conn_n(e["c"]), name_n(e["n"]), gN(int(e["d"]))), gbool(e["ok"])))
+        if e["n"] == row.get("twice", -1):   # second registration of the same name: one more expected hand-over
+            ems.append(gpair(gpair(conn_n(e["c"]), gN(100 + e["n"]), gN(int(e["d"]))), gbool(e["ok"])))
+    em = glist(ems)
     de = glist(gpair(conn_n(d["c"]), name_n(d["n"]), gN(int(d["d"]))) for d in row["delivered"])
     return gpair(flags, names, em, de)
 
@@ -36,13 +45,29 @@ def size_bucket(e):
             return name
 
 
+def expected_delivered(row):
+    E = Counter()
+    for e in row["emitted"]:
+        E[(e["c"], e["n"], e["d"])] += 1
+        if e["n"] == row.get("twice", -1):
+            E[(e["c"], 100 + e["n"], e["d"])] += 1
+    D = Counter((d["c"], d["n"], d["d"]) for d in row["delivered"])
+    return E, D
+
+
 def describe(row, limit=6):
     """what failed in a history: per (name, kind) counts of lost / extra deliveries"""
-    E = Counter((e["c"], e["n"], e["d"]) for e in row["emitted"])
-    D = Counter((d["c"], d["n"], d["d"]) for d in row["delivered"])
+    E, D = expected_delivered(row)
     names = row["names"]
-    lost = Counter(names[k[1]]["name"] if 0 <= k[1] < len(names) else "?" for k in (E - D).elements())
-    extra = Counter(names[k[1]]["name"] if 0 <= k[1] < len(names) else "decoy/foreign" for k in (D - E).elements())
+
+    def nm(i):
+        if 0 <= i < len(names):
+            return names[i]["name"]
+        if 0 <= i - 100 < len(names):
+            return names[i - 100]["name"] + " (2nd registration)"
+        return "decoy/foreign"
+    lost = Counter(nm(k[1]) for k in (E - D).elements())
+    extra = Counter(nm(k[1]) for k in (D - E).elements())
     return "lost %s, duplicated/foreign/altered %s, errors %s" % (dict(lost), dict(extra), row["errors"][:limit])
 
 
@@ -62,7 +87,7 @@ def run(ctx):
     ctx.assumptions = ["links (TCP/HTTP/websocket library) are reliable FIFO per connection",
                        "64-bit digests of canonical argument trees stand for the trees (deep comparison is done by digest)",
                        "handler entry order is not part of C01 (per-packet dispatch goroutines; C02)"]
-    ok = ctx.proofs(modules=["Sio/EndToEndCheck", "Sio/EndToEndInst"])
+    ok = ctx.proofs(modules=["Sio/EndToEndCheck"])
     vh = ctx.go_build()
     if vh is None:
         return
@@ -116,9 +141,8 @@ def run(ctx):
         r = usable[i]
         scn = r["scn"]
         # finding classes (decidable on the scenario + failing events); None = not a known class
-        E = Counter((e["c"], e["n"], e["d"]) for e in r["emitted"])
-        D = Counter((d["c"], d["n"], d["d"]) for d in r["delivered"])
-        lost_names = {k[1] for k in (E - D).elements()}
+        E, D = expected_delivered(r)
+        lost_names = {k[1] % 100 for k in (E - D).elements()}
         extra = sum((D - E).values())
         key = None
         if extra == 0 and lost_names and scn["recovery"] and scn["dir"] == "s2c" and all(r["trailing"][n] for n in lost_names):
